@@ -36,6 +36,7 @@ pub fn run(ctx: &mut Ctx) {
         let mut trace = vec![];
         let mut evicted = false;
         let mut refreshed = false;
+        let mut blind = 0usize;
         ctx.eval();
         for step in 0..steps {
             if rng.chance(1, 15) {
@@ -127,6 +128,14 @@ pub fn run(ctx: &mut Ctx) {
                     }
                 };
                 ctx.count("reopens", 1);
+                // Half of the reopens are followed by one to three steps after which the lists are not
+                // read (added after seeded change agent-C17-10): a store that answers from what it
+                // remembers of this process must have the whole list in mind before the first read,
+                // whatever came first after the open — a read or a registration.
+                if rng.chance(1, 2) {
+                    blind = 1 + rng.range(1, 3);
+                    ctx.count("reopens_followed_by_registrations_before_the_first_read", 1);
+                }
             } else {
                 let d = rng.below(2);
                 let pi = rng.below(peers.len());
@@ -194,6 +203,12 @@ pub fn run(ctx: &mut Ctx) {
                         }
                         let _ = std::fs::remove_file(&img);
                     }
+                }
+            }
+            if blind > 0 {
+                blind -= 1;
+                if blind > 0 && step + 1 < steps {
+                    continue;
                 }
             }
             for d in 0..2 {
